@@ -404,7 +404,7 @@ PROPS["C13"] = dict(
            "Implstep-failed": "harness step failed"},
     trusted=["net/url (Parse, String, ParseRequestURI, Port), golang.org/x/net/idna, strings.ToLower, path.Clean: evaluated by the harness with the same "
              "library functions and handed to the model as tables", "goja: accessor properties, Array.from, JSON"],
-    assumptions=["opaque URLs (mailto:, foo:bar) are skipped", "numeric (non-string) port arguments and the username/password setters are not modelled",
+    assumptions=["opaque URLs (mailto:, foo:bar) are skipped", "numeric (non-string) port arguments are not modelled; the username/password setters are modelled as leaving every modelled field alone (OUserinfo) and exercised with hostile values",
                  "hosts of the pathological form 'a:80:' (a port-like suffix inside the name part) are outside the host invariant"],
 )
 
